@@ -277,6 +277,53 @@ func genModuleSetOpt(r *rng, wantConflicts int, crowd bool) *wlMerge {
 		f := files[r.intn(len(files))]
 		f.Conds = append(f.Conds, c)
 	}
+	if r.chance(4) {
+		// names whose joined forms spell the same string: type "team.eng" with
+		// relation "lead" next to type "team" extended with relation "eng.lead"
+		// (whatever keys a (type, relation) pair by a joined string must not
+		// confuse the two) - a conflict-free set
+		sep := []string{".", "/", "-", "_"}[r.intn(4)]
+		a, q, z := "team", "eng", "lead"
+		ab := a + sep + q
+		if m.typeByName(a) == nil && m.typeByName(ab) == nil {
+			fa, fab, fext := files[r.intn(len(files))], files[r.intn(len(files))], files[r.intn(len(files))]
+			ta := &Type{Name: a}
+			if r.chance(50) {
+				ta.Relations = []*Relation{{Name: "owner", Expr: &Expr{Kind: KThis}, Direct: []Ref{{Type: a}}}}
+			}
+			fa.Blocks = append(fa.Blocks, &PBlock{Type: ta})
+			fab.Blocks = append(fab.Blocks, &PBlock{Type: &Type{Name: ab, Relations: []*Relation{{Name: z, Expr: &Expr{Kind: KThis}, Direct: []Ref{{Type: a}}}}}})
+			ext := &PBlock{Extend: true, Type: &Type{Name: a, Relations: []*Relation{{Name: q + sep + z, Expr: &Expr{Kind: KThis}, Direct: []Ref{{Type: a}}}}}}
+			if r.chance(50) {
+				// the mirror image: the joined type gets the short relation by extension
+				fab.Blocks[len(fab.Blocks)-1].Type.Relations = nil
+				ta.Relations = append(ta.Relations, &Relation{Name: q + sep + z, Expr: &Expr{Kind: KThis}, Direct: []Ref{{Type: a}}})
+				ext = &PBlock{Extend: true, Type: &Type{Name: ab, Relations: []*Relation{{Name: z, Expr: &Expr{Kind: KThis}, Direct: []Ref{{Type: a}}}}}}
+			}
+			fext.Blocks = append(fext.Blocks, ext)
+		}
+	}
+	if r.chance(8) && len(m.Types) > 0 {
+		// types and conditions live in different namespaces: a condition may be
+		// named like a type (of this file or of another one)
+		t := m.Types[r.intn(len(m.Types))]
+		taken := false
+		for _, c := range m.Conds {
+			if c.Name == t.Name {
+				taken = true
+			}
+		}
+		plain := len(t.Name) > 0 && len(t.Name) <= 50
+		for _, ch := range t.Name { // the grammar's condition names are plain identifiers
+			if !(ch >= 'a' && ch <= 'z' || ch >= 'A' && ch <= 'Z' || ch >= '0' && ch <= '9' || ch == '_') {
+				plain = false
+			}
+		}
+		if !taken && plain {
+			f := files[r.intn(len(files))]
+			f.Conds = append(f.Conds, &Cond{Name: t.Name, Params: []Param{{Name: "x", Type: "string"}}, Expr: "x == \"1\""})
+		}
+	}
 	// a module file must declare something the grammar accepts; empty files
 	// (header only) are legal modules and are kept.
 	if r.chance(2) {
@@ -481,6 +528,11 @@ func genModuleSetOpt(r *rng, wantConflicts int, crowd bool) *wlMerge {
 				"module broken\n\ntype lone%d\n  relations\n    define a: [user]\n^\n",
 				"module broken\n\ntype lone%d\n  relations\n    define a: [user] | \n",
 				"module broken\n\ntype lone%d @\n  relations\n    define a: [user]\n",
+				// a byte order mark in front of an otherwise valid module
+				"\ufeffmodule broken\n\ntype lone%d\n",
+				"\ufeffmodule broken\n\ntype lone%d\n  relations\n    define a: [user]\n",
+				"\ufeffmodule broken\n\ntype lone%d\n\ntype other%d\n",
+				"\ufeff\nmodule broken\n\ntype lone%d\n",
 			}
 			raw := raws[r.intn(len(raws))]
 			raw = strings.ReplaceAll(raw, "%d", fmt.Sprint(c))
@@ -490,6 +542,48 @@ func genModuleSetOpt(r *rng, wantConflicts int, crowd bool) *wlMerge {
 			wl.Conflicts = append(wl.Conflicts, Conflict{Kind: "syntaxerr", Files: []string{nf.Name}})
 		case 9: // delivered twice: decided below (needs the order)
 			wl.Conflicts = append(wl.Conflicts, Conflict{Kind: "file-twice"})
+		}
+	}
+	// spellings of file names: the merger receives names, not paths - "./core.fga",
+	// "wiki//a.fga" and "wiki\\a.fga" are names like any other, and two entries
+	// whose names merely normalise to the same path are two files
+	respell := func(n string) string {
+		switch r.intn(4) {
+		case 0:
+			return "./" + n
+		case 1:
+			if strings.Contains(n, "/") {
+				return strings.Replace(n, "/", "//", 1)
+			}
+			return "./" + n
+		case 2:
+			if strings.Contains(n, "/") {
+				return strings.ReplaceAll(n, "/", "\\")
+			}
+			return ".\\" + n
+		}
+		return "x/../" + n
+	}
+	if r.chance(6) {
+		if f := wl.Files[r.intn(len(wl.Files))]; f.DeliverAs == "" {
+			f.DeliverAs = respell(f.Name)
+		}
+	}
+	if r.chance(5) {
+		// the same contents under a second spelling of the name: a second file,
+		// whose declarations clash with the first one's wherever it stands in the list
+		var cands []*PFile
+		for _, f := range wl.Files {
+			if f.Kind == "module" && (len(f.Conds) > 0 || len(f.Blocks) > 0) {
+				cands = append(cands, f)
+			}
+		}
+		if len(cands) > 0 {
+			f := cands[r.intn(len(cands))]
+			nf := *f
+			nf.Name = f.Name + "~respelled"
+			nf.DeliverAs = respell(f.deliveredName())
+			wl.Files = append(wl.Files, &nf)
 		}
 	}
 	// delivery order
